@@ -24,7 +24,8 @@
   them to ALL finite sequences of calls by induction over the list.  Calls outside `pre` are skipped
   in the model exactly as on both sides of the correspondence (`stepChecked`).
 -/
-import Wbxml.Lemmas.TreeHeapMerge
+import Wbxml.Lemmas.TreeHeapWitness
+import Wbxml.Model.EncXml
 set_option linter.unusedSimpArgs false
 set_option linter.unusedVariables false
 namespace Wbxml.Props.C18
@@ -273,22 +274,6 @@ theorem no_adjacent_text_partial (main : List Lang) (lang cs : Nat) (ops : List 
   intro i j ci cj hci
   simp [create, St.cellAt] at hci
 
-/-- The 5-call history that breaks the full-strength statement: root element, text "a", element,
-    text "b", extraction of the element. -/
-def adjWitness : List Op :=
-  [.addElt none (.literal b!"r"), .addText (some 0) b!"a", .addElt (some 0) (.literal b!"e"),
-   .addText (some 0) b!"b", .extract 2]
-
-/-- The state it ends in: the two text nodes (addresses 1 and 3) are siblings, `1.next = 3`. -/
-def adjWitnessState : St :=
-  { heap := [{ pay := .elt (.literal b!"r") [], first := some 1 },
-             { pay := .text b!"a", parent := some 0, next := some 3 },
-             { pay := .elt (.literal b!"e") [] },
-             { pay := .text b!"b", parent := some 0, prev := some 1 }],
-    root := some 0 }
-
-theorem adjWitness_runs : run (create [] 0 0) adjWitness = .ok adjWitnessState := by rfl
-
 /-- Stated at full strength — for ALL histories — "adjacent text siblings have been merged" is FALSE for
     the code as it is: `wbxml_tree_extract_node` does not join the neighbours of the node it unlinks.
     (Recorded in `known_findings.json`, id `adjacent-text-after-extract`; every state of the history
@@ -296,11 +281,14 @@ theorem adjWitness_runs : run (create [] 0 0) adjWitness = .ok adjWitnessState :
 theorem no_adjacent_text_all_histories_false :
     ¬ (∀ (ops : List Op) (s' : St), run (create [] 0 0) ops = .ok s' → NoAdjText s') := by
   intro h
-  have hN := h adjWitness adjWitnessState adjWitness_runs
-  exact hN 1 3 _ _ rfl rfl rfl ⟨rfl, rfl⟩
+  exact adjWitness_adjacent (h adjWitness adjWitnessState adjWitness_runs)
+
+/-- The witness: root `<r>`, text "a", element `<e/>`, text "b", extraction of `<e/>` (5 calls). -/
+theorem adjWitness_history : run (create [] 0 0) adjWitness = .ok adjWitnessState ∧ ¬ NoAdjText adjWitnessState :=
+  ⟨adjWitness_runs, adjWitness_adjacent⟩
 
 /-- The abstract tree of the witness: `<r>` with the two text children `a`, `b` side by side. -/
-theorem adjWitness_abs :
+theorem adjWitness_abs_two_texts :
     absTree adjWitnessState =
       .ok { lang := none, origCharset := 0,
             root := some (.elt (.literal b!"r") [] [.text b!"a", .text b!"b"]) } := by rfl
@@ -324,7 +312,7 @@ theorem extract_detached_drops_root_unfixed :
     ∃ s s', run (create [] 0 0) [.addElt none (.literal b!"r"), .addElt (some 0) (.literal b!"c"), .extract 1] = .ok s ∧
       isDetached s 1 = true ∧ s.root = some 0 ∧
       extractNodeG false s 1 = .ok s' ∧ s'.root = none :=
-  ⟨_, _, rfl, rfl, rfl, rfl, rfl⟩
+  ⟨x3, { x3 with root := none }, extWitness_runs, rfl, rfl, rfl, rfl⟩
 
 /-! ### `wbxml_tree_node_add_child` is not `wbxml_tree_add_node` -/
 
@@ -334,22 +322,17 @@ theorem extract_detached_drops_root_unfixed :
     the calls the histories of C18 range over.) -/
 theorem add_child_does_not_merge :
     ∃ s s', Inv s ∧ NoAdjText s ∧ addChild s 0 2 = .ok s' ∧ ¬ NoAdjText s' := by
+  have hrun : run (create [] 0 0) [.addElt none (.literal b!"r"), .addText (some 0) b!"a"] = .ok w2 := by
+    rw [run_cons _ adj_h1, run_cons _ adj_h2]; rfl
   obtain ⟨s1, e1, hI1, _, hna⟩ := run_inv [.addElt none (.literal b!"r"), .addText (some 0) b!"a"] _
     (TreeHeap.inv_create [] 0 0)
-  have hN1 : NoAdjText s1 := hna (by intro op hop; simp at hop; rcases hop with h | h <;> subst h <;> rfl) (by
+  rw [hrun] at e1; injection e1 with e1; subst e1
+  have hN1 : NoAdjText w2 := hna (by intro op hop; simp at hop; rcases hop with h | h <;> subst h <;> rfl) (by
     intro i j ci cj hci; simp [create, St.cellAt] at hci)
-  have hs1 : s1 = { heap := [{ pay := .elt (.literal b!"r") [], first := some 1 },
-                              { pay := .text b!"a", parent := some 0 }], root := some 0 } := by
-    have : run (create [] 0 0) [.addElt none (.literal b!"r"), .addText (some 0) b!"a"] =
-        .ok { heap := [{ pay := .elt (.literal b!"r") [], first := some 1 },
-                       { pay := .text b!"a", parent := some 0 }], root := some 0 } := by rfl
-    rw [this] at e1; injection e1 with e1; exact e1.symm
   obtain ⟨G, hF⟩ := hI1
-  refine ⟨(s1.alloc (.text b!"b")).2, _, ⟨_, (hF.alloc _).1⟩, alloc_noadj ⟨G, hF⟩ hN1 _, ?_, ?_⟩
-  · subst hs1; rfl
-  · subst hs1
-    intro hN
-    exact hN 1 2 _ _ rfl rfl rfl ⟨rfl, rfl⟩
+  refine ⟨(w2.alloc (.text b!"b")).2, _, ⟨_, (hF.alloc _).1⟩, alloc_noadj ⟨G, hF⟩ hN1 _, rfl, ?_⟩
+  intro hN
+  exact hN 1 2 _ _ rfl rfl rfl ⟨rfl, rfl⟩
 
 /-! ### Encoders see `abs` only -/
 
@@ -382,7 +365,7 @@ example : ∃ s', run (create [] 0 0)
        .addCdata (some 0), .extract 3, .addNode (some 0) 3, .extract 3, .destroy 3] = .ok s' ∧
       absTree s' = .ok { lang := none, origCharset := 0,
                          root := some (.elt (.literal b!"r") [] [.text b!"ab"]) } :=
-  ⟨_, rfl, rfl⟩
+  ⟨m8, mixWitness_runs, rfl⟩
 
 example : pre adjWitnessState (.addNode (some 0) 2) = true := by rfl
 example : pre adjWitnessState (.extract 1) = true := by rfl
